@@ -1848,6 +1848,58 @@ fn value_stream(report: &mut Report) -> Option<(String, serde_json::Value)> {
             }
         }
     }
+    // ---- the same variable re-assigned a value with the SAME text but the other kind
+    {
+        let reassign: Vec<(&str, &str, bool)> = vec![
+            // (what, template, final value is safe?)
+            ("safe filter then plain, set", "{% set x = d | safe %}{% set x = d %}{{ x }}", false),
+            ("capture of safe text then plain, set", "{% set x %}{{ d | safe }}{% endset %}{% set x = d %}{{ x }}", false),
+            ("component result then plain, set", "{% set x = <rawc d={d}/> %}{% set x = d %}{{ x }}", false),
+            ("safe then plain, set_global", "{% set_global x = d | safe %}{% set_global x = d %}{{ x }}", false),
+            ("safe set then plain set_global in a loop", "{% set x = d | safe %}{% for i in [1] %}{% set_global x = d %}{% endfor %}{{ x }}", false),
+            ("safe then plain, printed via WriteTop / loop / argument", "{% set x = d | safe %}{% set x = d %}{{ x | default(value=1) }}", false),
+            ("safe literal then the same literal", "{% set x = \"<b>&\" | safe %}{% set x = \"<b>&\" %}{{ x }}", false),
+            ("safe then plain via concatenation of halves", "{% set x = d | safe %}{% set x = d[0:] ~ \"\" %}{{ x }}", false),
+            ("plain then safe filter, set", "{% set x = d %}{% set x = d | safe %}{{ x }}", true),
+            ("plain then capture of safe text", "{% set x = d %}{% set x %}{{ d | safe }}{% endset %}{{ x }}", true),
+            ("plain then component result", "{% set x = d %}{% set x = <rawc d={d}/> %}{{ x }}", true),
+            ("plain then safe, set_global", "{% set_global x = d %}{% set_global x = d | safe %}{{ x }}", true),
+            ("plain, safe, plain", "{% set x = d %}{% set x = d | safe %}{% set x = d %}{{ x }}", false),
+            ("safe, plain, safe", "{% set x = d | safe %}{% set x = d %}{% set x = d | safe %}{{ x }}", true),
+        ];
+        let mut t3 = Tera::default();
+        let mut list: Vec<(String, String)> = vec![("rawdefs.html".into(), "{% component rawc(d) %}{{ d | safe }}{% endcomponent rawc %}".into())];
+        for (k, (_, t, _)) in reassign.iter().enumerate() {
+            list.push((format!("re{k}.html"), t.to_string()));
+            // the same inside a child block (block-level sets), with super() as one more safe source
+            list.push((format!("reb{k}.html"), format!("{{% extends \"rebase.html\" %}}{{% block b %}}{t}{{% endblock b %}}")));
+        }
+        list.push(("rebase.html".into(), "{% block b %}{{ d | safe }}{% endblock b %}".into()));
+        list.push(("resuper.html".into(), "{% extends \"rebase.html\" %}{% block b %}{% set x = super() %}{% set x = d %}{{ x }}|{% set y = d %}{% set y = super() %}{{ y }}{% endblock b %}".into()));
+        match t3.add_raw_templates(list) {
+            Err(e) => {
+                if first.is_none() {
+                    first = Some((format!("re-assignment: templates do not register: {e:?}"), serde_json::json!({"value_stream": "reassign"})));
+                }
+            }
+            Ok(()) => {
+                for d in ["<>&\"'", "<b>&", "x>y", "<&>\"'x<i>\"&amp;'<&>\"'x"] {
+                    let mut ctx = Context::new();
+                    ctx.insert("d", d);
+                    let e = reference_escape(d);
+                    for (k, (what, t, safe_last)) in reassign.iter().enumerate() {
+                        let lit = t.contains("\"<b>&\"");
+                        let want = if lit { if *safe_last { "<b>&".to_string() } else { reference_escape("<b>&") } } else if *safe_last { d.to_string() } else { e.clone() };
+                        for name in [format!("re{k}.html"), format!("reb{k}.html")] {
+                            check(&format!("variable re-assigned, same text other kind ({what}), `{t}` in {name}"), t3.render(&name, &ctx), want.clone(), d, report, &mut first);
+                        }
+                    }
+                    check("variable re-assigned: super() then plain | plain then super()", t3.render("resuper.html", &ctx), format!("{e}|{d}"), d, report, &mut first);
+                }
+            }
+        }
+    }
+
     // ---- values through serde: every enum-variant shape, renamed with special characters
     {
         let mk = |txt: &str| SerdeOuter {
@@ -2323,6 +2375,12 @@ fn custom_cases() -> Vec<CustomCase> {
         w("bytes", Value::bytes(b"abba".to_vec()), "{{ v }}", "ld:v w ."),
         w("concat-scalar", Value::from(false), "{{ v ~ \"\" }}", &format!("ld:v sl: cat w .")),
         w("int", Value::from(-12), "{{ v }}", "ld:v w ."),
+        // string LITERALS printed directly: data like any other, through the configured escaper
+        w("literal", Value::from(1), "{{ \"banana\" }}", "sl:62616e616e61 w ."),
+        w("literal-backtick", Value::from(1), "{{ `papaya` }}|{{ 'ananas' }}", "sl:706170617961 w txt:7c sl:616e616e6173 w ."),
+        w("literal-in-capture", Value::from(1), "{% set c %}{{ \"banana\" }}{% endset %}{{ c }}", "cap sl:62616e616e61 w endcap set:c ld:c w ."),
+        w("literal-in-loop-and-branch", Value::from(1), "{% for i in [1, 2] %}{% if v %}{{ \"banana\" }}{% endif %}{% endfor %}", "sl:62616e616e61 w sl:62616e616e61 w ."),
+        w("literal-in-component", Value::from(1), "{% component lc() %}{{ \"banana\" }}{% endcomponent lc %}{{ <lc/> }}", "comp::0 . sl:62616e616e61 w . w ."),
     ]
 }
 
@@ -2808,6 +2866,57 @@ fn main() {
                     if report.violations.iter().all(|v| v.kind != "model-mismatch") {
                         report.violation("model-mismatch", format!("override case: model `{m}` vs implementation `{}`", imps[k]), serde_json::json!({"detail": {"stage": "correspondence:override"}, "request": reqs[k]}));
                     }
+                }
+            }
+        }
+    }
+
+    // a configured escaper that rewrites characters HTML does not care about (`$`, `\`, newline):
+    // everything printed from an expression goes through it, literals included
+    {
+        fn shell_escaper(input: &str, out: &mut dyn std::io::Write) -> std::io::Result<()> {
+            for b in input.bytes() {
+                match b {
+                    b'$' => out.write_all(b"(d)")?,
+                    b'\\' => out.write_all(b"(b)")?,
+                    b'\n' => out.write_all(b"(n)")?,
+                    _ => out.write_all(&[b])?,
+                }
+            }
+            Ok(())
+        }
+        let mut tera = Tera::default();
+        tera.set_escape_fn(shell_escaper);
+        let cases: [(&str, &str); 8] = [
+            ("{{ \"a$b\" }}", "a(d)b"),
+            ("{{ \"x\\\\y\" }}", "x(b)y"),
+            ("{{ \"l\\nm\" }}", "l(n)m"),
+            ("{{ \"$\" }}{{ '$' }}{{ `$` }}", "(d)(d)(d)"),
+            ("{% set c %}{{ \"a$b\" }}{% endset %}{{ c }}", "a(d)b"),
+            ("{% for i in [1] %}{{ \"a$b\" }}{% endfor %}{% if true %}{{ \"$\" }}{% endif %}", "a(d)b(d)"),
+            ("{{ \"a$b\" ~ \"\" }}|{{ v }}|{{ [\"$\"] | first }}", "a(d)b|p(d)q|(d)"),
+            ("text $ stays{{ \"$\" }}", "text $ stays(d)"),
+        ];
+        for (k, (t, want)) in cases.iter().enumerate() {
+            report.evaluations += 1;
+            report.oracle_checks += 1;
+            let name = format!("sh{k}.html");
+            let got = match tera.add_raw_template(&name, t) {
+                Err(e) => format!("adderr {e:?}"),
+                Ok(()) => {
+                    let mut ctx = Context::new();
+                    ctx.insert("v", "p$q");
+                    tera.render(&name, &ctx).unwrap_or_else(|e| format!("error {e:?}"))
+                }
+            };
+            if got != *want {
+                report.oracle_failures += 1;
+                if report.violations.iter().all(|v| !v.summary.starts_with("configured escaper ($")) {
+                    report.violation(
+                        "property",
+                        format!("configured escaper ($ ↦ (d), \\ ↦ (b), newline ↦ (n)): `{t}` renders {got:?}, every expression result must go through it: {want:?}"),
+                        serde_json::json!({"shell_escaper_case": t}),
+                    );
                 }
             }
         }
